@@ -409,13 +409,18 @@ func TestSmallExhaustive(t *testing.T) {
 						continue
 					}
 					for root := 0; root < nn; root++ {
+						if nn == 5 && root != 0 && root != 4 {
+							// every labelled graph is enumerated, so the other roots are relabellings of
+							// these; the first and last label keep the index-order-dependent paths covered
+							continue
+						}
 						checkSmall.RunEnum(tb, &SmallCase{N: nn, Mask: uint64(m), Variant: variant, Root: root})
 					}
 				}
 			}
 		})
 	}
-	ev.Exhaustive(fmt.Sprintf("all digraphs on 1..%d nodes x every root, single and doubled edges", maxN))
+	ev.Exhaustive(fmt.Sprintf("all digraphs on 1..%d nodes x every root, single and doubled edges (5 nodes: roots 0 and 4, doubled edges sampled 1 in 16)", maxN))
 }
 
 // flow builds a reducible flow graph from nested if / loop / sequence
